@@ -47,24 +47,24 @@ add("C11", "exploration",
 add("C12", "exploration",
     "metamorphic runtime monitor: same schedule under shifted ISNs must give identical normalised traces; comparison primitives vs modular arithmetic",
     "Each C01-style schedule is executed under two ISN pairs, the second placed so the sequence space wraps 2^32 or crosses 2^31 during handshake or transfer; flags, lengths, windows, relative seq/ack of every emitted segment, states, deliveries and releases must agree step by step. mod_lt/leq/gt/geq/bounded are compared with (b-a) mod 2^32 on millions of boundary-biased samples.",
-    "Equality of two runs is judged, not their correctness (C01 does that).",
+    "Equality of two runs is judged, not their correctness (C01 does that); half of the schedules also close.",
     "DESIGN.md §3 C12")
 add("C17", "exploration",
     "runtime robustness monitor: crafted segments injected into a live real TCB pair; no-panic, send-window and unacceptable-segment-has-no-effect oracles (immediate and delayed)",
-    "All 64 flag combinations with boundary-biased seq/ack/window/length are injected at every reachable state, interleaved with legitimate traffic; any panic is a violation, new data must stay inside SND.UNA+SND.WND, and a segment that RFC 9293 table 6 makes unacceptable must change neither state nor delivered bytes, immediately and (mode U) after the legitimate stream continues over a fair network. One deliberate deviation of the implementation (window widened to RCV.NXT-1) is a known finding.",
-    "Acceptability is computed by the harness from the victim's observed RCV.NXT/RCV.WND; ACK bookkeeping and replies to unacceptable segments are not judged.",
+    "All 64 flag combinations with boundary-biased seq/ack/window/length are injected at every reachable state, interleaved with legitimate traffic; any panic is a violation, new data must stay inside SND.UNA+SND.WND, SND.WND itself must be the window RFC 9293's WL1/WL2 update rule (kept as a reference model in circular arithmetic) makes of the in-order arrivals, and a segment that RFC 9293 table 6 makes unacceptable must change neither state nor delivered bytes, immediately and (mode U) after the legitimate stream continues over a fair network. One deliberate deviation of the implementation (window widened to RCV.NXT-1) is a known finding.",
+    "Acceptability is computed by the harness from the victim's observed RCV.NXT/RCV.WND; the window reference model is re-synchronised on arrivals it cannot judge (out of order, non-ESTABLISHED, SYN/FIN/RST); replies to unacceptable segments are not judged.",
     "DESIGN.md §3 C17")
 
 
 add("C02", "exploration",
     "runtime history monitor at the socket boundary over the full stack: every written byte tagged (connection, offset), every read recorded (asked, got); stream-equality, read-bound and cross-talk oracles; H4 frame hook for loss/duplication; current_thread (virtual time) and multi_thread runtimes",
-    "Held on every executed scenario: 1..32 clients against one listening server through sockets/TCP|UDP/IPv4/ARP/link with random write sizes and spacing, read sizes and APIs, MTUs, jitter and bounded loss/duplication, on both tokio runtime flavours. What each server socket read must equal the concatenation of that client's writes, no read may exceed its bound, no byte may show up on another connection, datagrams arrive intact or not at all at the connected peer only. Five genuine defects found here were repaired.",
+    "Held on every executed scenario: 1..32 clients (occasionally a crowd of 130..220 connected before the first accept) against one listening server through sockets/TCP|UDP/IPv4/ARP/link with random write sizes and spacing, read sizes and APIs, MTUs, jitter and bounded loss/duplication, on both tokio runtime flavours. What each server socket read must equal the concatenation of that client's writes, no read may exceed its bound, no byte may show up on another connection, datagrams arrive intact or not at all at the connected peer only. Five genuine defects found here were repaired.",
     "Interleavings of the multi-thread runtime are only those the OS scheduler produced (evidence counts distinct read patterns); a wall-clock timeout there is inconclusive.",
     "DESIGN.md §3 C02")
 add("C04", "exploration",
     "runtime monitor with reference demultiplexing rule: recorder applications log every demux with Control contents; the H4 hook tells which taps each frame reached; exact expected delivery set per datagram",
     "For generated machines/bindings/datagrams the set of (machine, application) that received each datagram is compared with exact-then-wildcard-else-nobody evaluated on every machine the frame actually reached; payload, source and destination address/port must be unchanged; repeated binds must be refused and the first binding keep working; oversize datagrams refused without side effects.",
-    "Frame reach is observed, not modelled; first bind wins.",
+    "Frame reach is observed, not modelled; first bind wins; ARP is chosen per machine.",
     "DESIGN.md §3 C04")
 add("C05", "exploration",
     "runtime monitor on the link: harness link-level protocol on every tap + H4 frame hook, exact virtual time; delivery-set, MTU-boundary, address-uniqueness and timing-lower-bound oracles",
@@ -74,47 +74,47 @@ add("C05", "exploration",
 add("C06", "exploration",
     "runtime monitor of Arp::resolve results and completion times against owner taps, own subnet arithmetic and the ARP frames the H4 hook saw delivered; loss plans over requests/replies; exact virtual time",
     "Every resolve returns either the owner's tap address (or the gateway owner's when the harness's own mask arithmetic puts the target off-subnet) or an error; concurrent resolvers agree; an error is only allowed if no ARP packet announcing the address reached the resolver between call and return; nothing takes longer than 10 x 200 ms of simulated time; replies never announce unclaimed addresses.",
-    "One network per scenario (the ARP table is per machine, not per tap); distinct claimed addresses.",
+    "One network per scenario (the ARP table is per machine, not per tap); distinct claimed addresses; mask (0..=32) and gateway per machine.",
     "DESIGN.md §3 C06")
 add("C08", "exploration",
     "runtime differential monitor of all six codecs: encode/decode round trips, re-encoding of accepted mutated byte strings, byte-for-byte comparison with etherparse 0.10 and a hand-written packer",
-    "Held on every generated header value and accepted byte string (259,200 per quick run): decode(encode(v)) = v field by field, encode(decode(b)) = consumed prefix, IPv4/UDP/TCP bytes equal two independent reference encoders, decoders extract the same fields from reference packets. One deviation (TCP reserved/ECN bits are dropped) is a known finding.",
+    "Held on every generated header value and accepted byte string (777,600 per quick run; DHCP strings are arbitrary Unicode text): decode(encode(v)) = v field by field, encode(decode(b)) = consumed prefix, IPv4/UDP/TCP bytes equal two independent reference encoders, decoders extract the same fields from reference packets. One deviation (TCP reserved/ECN bits are dropped) is a known finding.",
     "Default build: checksum fields are zero by the stack's convention (C18 covers the checksum build).",
     "DESIGN.md §3 C08")
 add("C13", "exploration",
     "runtime ordering monitor with a process-wide SeqCst stamp counter: barrier arrivals of harness applications vs every frame (H4) and every delivery; exit-status and bounded-return oracles in exact virtual time; multi-thread runs for order only",
-    "No frame and no application delivery may be stamped before the last harness application arrived at the barrier (sound on any runtime: the barrier cannot have released earlier); the returned status must be that of a shutdown request no other request finished before, TimedOut iff none preceded the timeout, and the run returns within timeout + 1 s of simulated time even with applications that never finish.",
-    "Same-instant requests may win either way; multi-thread time bounds not judged.",
+    "No frame and no application delivery may be stamped before the last harness application arrived at the barrier (sound on any runtime: the barrier cannot have released earlier); the returned status must be that of a shutdown request no other request finished before, TimedOut iff none preceded the timeout and never before it elapsed, a run nothing can end (no machines, machines without protocols, idle machines) ends by its timeout only, and the run returns within timeout + 1 s of simulated time even with applications that never finish.",
+    "Requests are ordered by their SeqCst stamps also within one simulated instant (bursts of up to 15 requests); multi-thread time bounds not judged.",
     "DESIGN.md §3 C13")
 add("C14", "exploration",
     "runtime no-panic monitor: all decoders and the NDL parser on mutated inputs under catch_unwind; malformed raw frames injected into live hosts/router/DHCP/DNS servers in worker subprocesses whose death is attributed to the running scenario",
-    "No generated byte string or description text made a decoder or the parser unwind (315,000 inputs per quick run), and with 20..80 malformed frames per run injected through PciSession::send_pci the process stayed alive, no application received an injected payload through an undecodable header, and the concurrent legitimate UDP exchange, routed datagrams and TCP stream completed intact with the scripted exit status. Twelve crash sites found here were repaired.",
+    "No generated byte string or description text made a decoder or the parser unwind (315,000 inputs per quick run, single faults and compound mutations, plus the stack's next step after an accepted header), and with 20..80 malformed frames per run (17 single-fault classes incl. fragments ending around the 64 KiB limit, and compound mutations) injected through PciSession::send_pci the process stayed alive, no application received an injected payload through an undecodable header, and the concurrent legitimate UDP exchange, routed datagrams and TCP stream completed intact with the scripted exit status. Thirteen crash sites found here were repaired.",
     "A panic caught in-process is what the simulator's hook would turn into process exit.",
     "DESIGN.md §3 C14")
 add("C15", "exploration",
     "runtime history monitor: IpGenerator operations vs an interval/unit model; DHCP leases over the full stack vs Offers seen by the H4 hook, on both runtimes",
     "Every fetched address/subnet is free in the model, aligned, disjoint from everything held or blocked; None only when no unit can hold an aligned block; new_sub_no_ends offers exactly the host addresses; 1..40 concurrently starting DHCP clients get pairwise distinct leases from the pool, each equal to an Offer sent to that client's tap, and a released address is available again.",
-    "Only held units are returned, whole; merging of adjacent returned units is not demanded.",
+    "Held units are returned whole; subnets whose addresses are all available already are returned as well (overlapping ranges); merging of adjacent returned units is not demanded.",
     "DESIGN.md §3 C15")
 add("C16", "exploration",
     "runtime monitor with a reference walk over the configured routing tables: expected exact frame sequence (network, TTL) and final delivery or drop per datagram vs the H4 frame log and recorder applications; loop circuit breaker",
-    "For generated line/star/ring topologies with correct, deleted, redirected (looping) and dangling routes, every datagram's IPv4 frames must equal the reference walk's sequence - network by network, TTL 30-k at hop k, addresses and payload unchanged - it must arrive exactly once at the destination host or nowhere, never produce more than 30 frames, and no unaccounted frame may exist.",
-    "One MTU everywhere; routes are /24.",
+    "For generated line/star/ring topologies with correct, deleted, redirected (looping) and dangling /24 routes plus default, /16 and /32 routes (longest match decides), datagrams sent through the stack (TTL 30) or hand-built with initial TTL 0..255, every datagram's IPv4 frames must equal the reference walk's sequence - network by network, TTL initial-k at hop k, addresses and payload unchanged - it must arrive exactly once at the destination host or nowhere, never produce more frames than its initial TTL, and no unaccounted frame may exist.",
+    "One MTU everywhere.",
     "DESIGN.md §3 C16")
 add("C18", "exploration",
-    "runtime monitor in the compute_checksum build: emitted checksums verified by an independent RFC 1071 implementation and compared with etherparse; reference packets fed to the decoders; exhaustive single-bit and sampled double-bit corruption; constructed sum=0xFFFF packets",
-    "Every emitted IPv4 header, UDP datagram and TCP segment verifies under RFC 1071 and equals the reference checksum; decoders accept reference packets (including the 0x0000 representation of a 0xFFFF sum) and reject every bit flip that changes the one's-complement sum.",
+    "runtime monitor in the compute_checksum build: emitted checksums verified by an independent RFC 1071 implementation and compared with etherparse; reference packets fed to the decoders; exhaustive single-bit and sampled double-bit corruption; constructed sum=0xFFFF packets; every segment emitted by live TCB pairs under C01's fault schedules (retransmissions, pure ACKs, SYN/FIN/RST)",
+    "Every emitted IPv4 header, UDP datagram and TCP segment (built by the header builder or emitted by a running connection, retransmissions included) verifies under RFC 1071 and equals the reference checksum; decoders accept reference packets (including the 0x0000 representation of a 0xFFFF sum) and reject every bit flip that changes the one's-complement sum.",
     "Separate build of the harness with elvis-core features verif+compute_checksum.",
     "DESIGN.md §3 C18")
 add("C19", "exploration",
     "runtime monitor: parse(render(tree)) = tree over generated description trees and renderings; structural breaks must be rejected; generated valid descriptions executed on the paused clock with the process-wide H4 hook checking the described messages on the wire",
-    "3,000 generated trees per quick run round-trip through the harness's renderer (tabs/4 spaces/CRLF, any section order) and core_parser; six kinds of structural breaks are always rejected with a message; ~170 generated valid descriptions (senders with counts, forward chains, ping-pong, shared capture factories, by name or address, optional ARP/auto-protocol) end with Exited and every described message is seen as a UDP frame to the described address and port.",
+    "3,000 generated trees per quick run round-trip through the harness's renderer (tabs/4 spaces/CRLF, any section order) and core_parser; six kinds of structural breaks are always rejected with a message; ~170 generated valid descriptions (senders with counts, forward chains and ping-pong with distinct local/remote ports, shared capture factories, by name or address per reference, optional ARP, auto-protocol per machine with omitted protocols) end with Exited and every described message is seen as a UDP frame to the described address and port.",
     "Argument values exclude characters the grammar cannot carry.",
     "DESIGN.md §3 C19")
 add("C20", "exploration",
     "runtime monitor: DnsClient results vs registered records; DNS frames decoded at the H4 hook (response echoes id and name of the query from that port); frame counts around repeated lookups prove cache hits put nothing on the network",
     "For generated record sets, clients and lookup sequences with reordering jitter every lookup returns the registered address, every response echoes its query and carries the right address, the number of queries equals the number of cold lookups, and repeated lookups add no frame from that client.",
-    "Only registered names are looked up; lookups of one client are sequential.",
+    "Only registered names are looked up; a client in three runs 2..3 lookup sequences at once (disjoint names); the no-traffic rule for repeats is applied to single-sequence clients.",
     "DESIGN.md §3 C20")
 
 NOT_YET = {
